@@ -37,6 +37,9 @@ def tasks(tier):
         for k, (v, c) in enumerate(combos):
             for W in (0, 2):
                 t.append(dict(module="xform", fn="h_transform", shape=dict(vars=v, cons=c, W=W, fmt=fm[k % 3]), opts=dict(exp_window=(-3 * W - 1, 3 * W + 1))))
+        # callbacks returning integer-dtype matrices (built from integer literals, as tests/pygradflow/tame.py does)
+        for f, c in (("coo", ["eq0"]), ("csr", ["ge"])):
+            t.append(dict(module="xform", fn="h_transform", shape=dict(vars=["boxed"], cons=c, W=1, fmt=f, int_matrices=True), opts=dict(exp_window=(-4, 4))))
         t.append(dict(module="xform", fn="h_transform", shape=dict(vars=["boxed", "lower"], cons=["ge"], W=2, fmt="coo", jac_pattern=[[0, 0], [0, 0], [0, 1]], hess_pattern=[[0, 0], [1, 1], [1, 1], [0, 1], [1, 0]]), opts=dict(exp_window=(-7, 7))))
         t.append(dict(module="xform", fn="h_transform", shape=dict(vars=["boxed", "lower"], cons=["ranged"], W=2, fmt="csc", jac_pattern=[[0, 1]], hess_pattern=[[0, 0]]), opts=dict(exp_window=(-7, 7))))
         # "for all evaluation points" includes the second and later evaluations of callbacks that
